@@ -265,7 +265,8 @@ impl<'a, 'bases, R: Reader> EhHdrTableIter<'a, 'bases, R> {
         let row_size = size * 2;
         let n = u64::try_from(n).map_err(|_| Error::UnsupportedOffset)?;
         self.remain = self.remain.saturating_sub(n);
-        self.table.skip(R::Offset::from_u64(n * row_size)?)?;
+        let skip = n.checked_mul(row_size).ok_or(Error::UnsupportedOffset)?;
+        self.table.skip(R::Offset::from_u64(skip)?)?;
         self.next()
     }
 }
@@ -360,7 +361,10 @@ impl<'a, R: Reader + 'a> EhHdrTable<'a, R> {
         };
 
         while len > 1 {
-            let head = reader.split(R::Offset::from_u64((len / 2) * row_size)?)?;
+            let head_len = (len / 2)
+                .checked_mul(row_size)
+                .ok_or(Error::UnsupportedOffset)?;
+            let head = reader.split(R::Offset::from_u64(head_len)?)?;
             let tail = reader.clone();
 
             let pivot =
@@ -395,7 +399,10 @@ impl<'a, R: Reader + 'a> EhHdrTable<'a, R> {
         let eh_frame_ptr = self.hdr.eh_frame_ptr().direct()?;
 
         // Calculate the offset in the EhFrame section
-        R::Offset::from_u64(ptr - eh_frame_ptr).map(EhFrameOffset)
+        let offset = ptr
+            .checked_sub(eh_frame_ptr)
+            .ok_or(Error::OffsetOutOfBounds(ptr))?;
+        R::Offset::from_u64(offset).map(EhFrameOffset)
     }
 
     /// Returns a parsed FDE for the given address, or `NoUnwindInfoForAddress`
